@@ -31,6 +31,7 @@ def run(ctx, chk):
     chk.rule("B4", "SET_LOG_BASE: build all bitmaps, then replace in every region")
     chk.rule("B5", "the log stays in force across later memory-table changes")
     run_on(fb, chk)
+    b7b8b9(fb, chk)
     from . import xlist
     xlist.apply("C15", fb, chk)
     n = lambda r: len([i for i in chk.instances if i[0] == r])
@@ -161,12 +162,17 @@ def run_on(fb, chk, tag=""):
             bounded = False
             for a in o.atoms:
                 if a[0] == "cmp" and a[1] == "Lt" and "len(" in show(a[3]) and "logmem" in show(a[3]):
-                    l = show(a[2])
-                    if l.startswith("page_word(page_number(") and "checked_add" in l and "Sub 1" in l:
+                    if _is_last_word(fb, sym, a[2]):
                         bounded = True
             if not bounded:
                 probs.add("Ok without page_word(page_number(start + len - 1)) < logmem.len()")
-            if not any(a[0] == "cmp" and a[1] == "Ne" and const_eval(fb, sym, a[3]) == 0 for a in o.atoms):
+            nonempty = False
+            for a in o.atoms:
+                if a[0] == "cmp" and "len(" in show(a[2]) and "logmem" not in show(a[2]):
+                    k = const_eval(fb, sym, a[3])
+                    if (a[1] == "Ne" and k == 0) or (a[1] == "Ge" and k == 1) or (a[1] == "Gt" and k == 0):
+                        nonempty = True
+            if not nonempty:
                 probs.add("Ok for an empty region")
         chk.check(not probs and nok >= 1, "B3", tag + "new:bounds", "bitmap created only if the last byte's word is inside the log",
                   "AtomicBitmapMmap::new: %s" % "; ".join(sorted(probs)), f.loc())
@@ -278,3 +284,123 @@ def run_on(fb, chk, tag=""):
               "the log mapping accepted by SET_LOG_BASE lives only inside the bitmaps of the regions that existed at that time: regions created by a "
               "later SET_MEM_TABLE / ADD_MEM_REG get an empty bitmap and backend writes to them are not logged (handler keeps log: %s, "
               "set_log_base stores it: %s, later region creation installs it: %s)" % (keeps, stored, later), f.loc())
+
+
+def _is_last_word(fb, sym, x):
+    """Is term `x` the log word of the region's last byte, i.e. ((start + len - 1) / 4096) / 8, as a function of the region's
+    start address and length?  Decided by evaluating the term (through the crate's own page helpers) on sample regions."""
+    start = ln = None
+    for s_ in subterms(x):
+        if s_[0] == "call" and s_[1] == "start_addr":
+            start = s_
+        if s_[0] == "call" and s_[1] == "len" and "logmem" not in show(s_):
+            ln = s_
+    if start is None or ln is None:
+        return False
+    for st, n in ((0, 1), (0, 4096), (0x1000, 0x8001), (0x7fff, 2), (0x123456, 0x654321), (0x8000, 0x8000)):
+        v = const_eval(fb, sym, x, env={start: st, ln: n})
+        if v != ((st + n - 1) // 4096) // 8:
+            return False
+    return True
+
+
+# ---------------------------------------------------------------------------- B7 / B8 / B9
+
+def _ok_payload(x):
+    """The single payload of `x?` / `x.unwrap()` when x is (a merge containing exactly one) `Ok(v)` / `Some(v)`; else None."""
+    while x[0] in ("ref", "deref"):
+        x = x[1]
+    alts = x[2] if x[0] == "phi" else [x]
+    pl = [a[3][0][1] for a in alts if a[0] == "agg" and a[2] in ("Ok", "Some") and len(a[3]) == 1]
+    rest = [a for a in alts if not (a[0] == "agg" and a[2] in ("Ok", "Some", "Err", "None")) and a[0] != "from_residual"]
+    return pl[0] if len(pl) == 1 and not rest else None
+
+
+def _conv_source(t, depth=0):
+    """Peel casts, `?`-unwraps, lossless conversions and tuples handed through a helper's `Ok((a, b))`; the parameter a value
+    comes from, or None."""
+    if depth > 12:
+        return None
+    if t[0] in ("cast", "ref", "deref"):
+        return _conv_source(t[1], depth + 1)
+    if t[0] == "param":
+        return t
+    if t[0] == "call" and t[1] in ("io_try_into", "try_into", "try_from", "into", "from") and len(t[2]) == 1:
+        return _conv_source(t[2][0], depth + 1)
+    if t[0] == "unwrap" or (t[0] == "field" and t[2] == "0" and t[1][0] == "down" and t[1][2] in ("Ok", "Some")):
+        x = t[1] if t[0] == "unwrap" else t[1][1]
+        p_ = _ok_payload(x)
+        return _conv_source(p_ if p_ is not None else x, depth + 1)
+    if t[0] == "field" and str(t[2]).isdigit():
+        # element of a tuple built in this body (possibly handed through `Ok((..))?`)
+        x = t[1]
+        for _ in range(4):
+            while x[0] in ("ref", "deref"):
+                x = x[1]
+            if x[0] == "tuple":
+                k = int(t[2])
+                return _conv_source(x[1][k], depth + 1) if k < len(x[1]) else None
+            if x[0] == "unwrap" or (x[0] == "field" and x[2] == "0" and x[1][0] == "down"):
+                inner = x[1] if x[0] == "unwrap" else x[1][1]
+                p_ = _ok_payload(inner)
+                if p_ is None:
+                    return None
+                x = p_
+                continue
+            return None
+    return None
+
+
+def b7b8b9(fb, chk, tag=""):
+    chk.rule("B7", "a copy of a region's bitmap handle logs through the same log at the same base address (Clone copies every field)")
+    chk.rule("B8", "the log file is mapped at exactly the offset and length of the request (no rounding, no adjustment)")
+    chk.rule("B9", "the unit bitmap can never accept a log: its constructor fails on every path")
+    # B7
+    for f in fb.find(name="clone", self_adt="BitmapMmapRegion"):
+        sym = Sym(f, fb)
+        ret = sym.local(0)
+        probs = []
+        if ret[0] != "agg":
+            probs.append("result is not built field by field from self (%s)" % show(ret)[:80])
+        else:
+            for fld, v in ret[3]:
+                srcs = [x for x in subterms(v) if x[0] == "field" and x[2] == fld and any(y[0] == "param" and y[1] == 1 for y in subterms(x))]
+                if not srcs or v[0] == "const":
+                    probs.append("field `%s` of the copy is %s, not self.%s" % (fld, show(v)[:60], fld))
+        chk.check(not probs, "B7", tag + "clone:BitmapMmapRegion", "every field of the copy is a clone of the same field of self",
+                  "BitmapMmapRegion::clone: %s: writes through a copied slice are logged at the wrong pages" % "; ".join(probs), f.loc())
+    # B8
+    fs = fb.find(name="from_file", self_adt="MmapLogReg")
+    if len(fs) != 1:
+        chk.anchor_missing("B8", tag + "MmapLogReg::from_file")
+    for f in fs:
+        sym = Sym(f, fb)
+        n = 0
+        for bb, t in f.calls():
+            c = callee_of(t)
+            if not c or c.get("name") != "mmap":
+                continue
+            n += 1
+            args = sym.arg_terms(bb)
+            ln, off = _conv_source(args[1]), _conv_source(args[5])
+            names = f.arg_names()
+            ok_off = off is not None and off[2] == "offset" or (off is not None and len(names) >= 2 and off[1] == 2)
+            ok_len = ln is not None and (ln[2] == "len" or ln[1] == 3)
+            chk.check(ok_off, "B8", tag + "from_file:offset", "mmap offset = the request's mmap_offset (conversions only)",
+                      "MmapLogReg::from_file maps the log file at `%s`, not at the offset it was given: dirty bits land outside the "
+                      "declared log area" % show(args[5])[:80], f.loc(t["line"]))
+            chk.check(ok_len, "B8", tag + "from_file:len", "mmap length = the request's mmap_size (conversions only)",
+                      "MmapLogReg::from_file maps `%s` bytes, not the length it was given" % show(args[1])[:80], f.loc(t["line"]))
+        if n != 1:
+            chk.bad("B8", tag + "from_file:mmap", "expected exactly one mmap call, found %d" % n, f.loc())
+    # B9
+    for f in fb.find(name="new"):
+        if not (f.trait or "").endswith("MemRegionBitmap") or f.self_ty != "()":
+            continue
+        sym = Sym(f, fb)
+        ret = sym.local(0)
+        alts = ret[2] if ret[0] == "phi" else [ret]
+        bad = [a for a in alts if not (a[0] == "agg" and a[2] == "Err")]
+        chk.check(not bad, "B9", tag + "unit:new", "<() as MemRegionBitmap>::new returns Err on every path",
+                  "the unit bitmap's constructor can return %s: a backend without a real bitmap accepts SET_LOG_BASE and logs nothing"
+                  % [show(a)[:40] for a in bad], f.loc())
